@@ -162,8 +162,10 @@ func checkBool(c Case, r *vf.R) error {
 		} else {
 			P, _ := prep(c.P)
 			Q, _ := prep(c.Q)
-			// F01e: both operands self-intersecting (or with mutually overlapping contours): about 0.02%
-			if r.Excluded("F01e", oracle.SelfIntersects(P.polys, 1e-9) && oracle.SelfIntersects(Q.polys, 1e-9)) {
+			// F01e: an operand with self-intersecting or mutually overlapping contours: about 0.02% of such pairs
+			// (first seen with both operands self-intersecting; the small integer grid shows one is enough:
+			// Q.Or(P) of P=M2 2L4 1L3 1L0 2z, Q=M2 3L3 0L2 0L3 3zM3 4L0 0L3 3L2 0z gets an edge from (4,1) to (3,3))
+			if r.Excluded("F01e", oracle.SelfIntersects(P.polys, 1e-9) || oracle.SelfIntersects(Q.polys, 1e-9)) {
 				return nil
 			}
 			// curved operands are flattened first: the open findings of Flatten (C03) apply to their segments
@@ -226,6 +228,9 @@ func degeneracy(p, q gen.PathSpec) (bool, int) {
 				if flat && len(cur) <= 4 {
 					spike = true
 				}
+				if flat && foldsBack(cur) {
+					spike = true
+				}
 				type pt struct{ x, y float64 }
 				var pts []pt
 				for i := 0; i+1 < len(cur); i += 2 {
@@ -249,6 +254,39 @@ func degeneracy(p, q gen.PathSpec) (bool, int) {
 		}
 	}
 	return spike, m
+}
+
+// foldsBack: two edges of the closed polygon with the given vertex coordinates are collinear and overlap in more than
+// a point (the contour runs back over itself: a zero-area spike attached to it).
+func foldsBack(xy []float64) bool {
+	n := len(xy) / 2
+	pt := func(i int) oracle.Pt { i %= n; return oracle.Pt{X: xy[2*i], Y: xy[2*i+1]} }
+	for i := 0; i < n; i++ {
+		a, b := pt(i), pt(i+1)
+		if a == b {
+			continue
+		}
+		for j := i + 1; j < n; j++ {
+			c, d := pt(j), pt(j+1)
+			if c == d {
+				continue
+			}
+			ab := b.Sub(a)
+			if ab.Cross(c.Sub(a)) != 0 || ab.Cross(d.Sub(a)) != 0 {
+				continue
+			}
+			// collinear: overlap of the parameter ranges along ab
+			l2 := ab.Dot(ab)
+			t0, t1 := ab.Dot(c.Sub(a))/l2, ab.Dot(d.Sub(a))/l2
+			if t0 > t1 {
+				t0, t1 = t1, t0
+			}
+			if math.Min(t1, 1)-math.Max(t0, 0) > 1e-12 {
+				return true
+			}
+		}
+	}
+	return false
 }
 
 // degenerateOperand: the operand has a zero-area contour of two vertices (spike) or two contours with the
@@ -472,7 +510,9 @@ func checkBool1(c Case, r *vf.R) error {
 
 func TestBool(t *testing.T) {
 	vf.Run(t, vf.Prop[Case]{Sub: "bool", Gen: genCase, Check: checkBool, Cases: vf.N(4000, 40000),
-		MaxRate: map[string]float64{"F01c": 0.15, "F01d": 0.012, "F01e": 0.003}})
+		MaxRate: map[string]float64{"F01c": 0.15, "F01d": 0.012, "F01e": 0.003},
+		// measured at six seeds of the quick tier (96000 cases): 4067, 417 and 20 fall-backs
+		BaseRate: map[string]float64{"F01c": 0.0424, "F01d": 0.00434, "F01e": 0.00021}})
 }
 
 var _ = fmt.Sprint
